@@ -117,6 +117,7 @@ type Vaxis struct {
 	cursorNext       cursorState
 	cursorLast       cursorState
 	closed           bool
+	suspended        bool
 	refresh          bool
 	kittyFlags       int
 	disableMouse     bool
@@ -1344,6 +1345,13 @@ func (vx *Vaxis) Suspend() error {
 	// 2. Send a DA1 query so there is data on the reader, breaking the read
 	//    loop
 	// 3. Confirm we have closed
+	if vx.suspended {
+		// Already suspended: the modes have been reset and the parser is
+		// stopped. Resetting them a second time would pop one kitty
+		// keyboard entry too many
+		return nil
+	}
+	vx.suspended = true
 	vx.parser.Close()
 	io.WriteString(vx.console, primaryAttributes)
 	vx.parser.WaitClose()
@@ -1440,6 +1448,7 @@ func (vx *Vaxis) Resume() error {
 	if err != nil {
 		return err
 	}
+	vx.suspended = false
 
 	vx.enterAltScreen()
 	vx.enableModes()
